@@ -420,6 +420,17 @@ pub fn gen(thorough: bool, seed: u64, out: &mut impl Write) {
       }
     }
   }
+  // (a') the nonce rule of the issuer signature through validate_credential: every header nonce x every expected nonce
+  // (absent / equal / different), with and without disclosures
+  for v in ["d0", "d7", "d3"] {
+    for hn in ["~", "4", "5"] {
+      for n in ["~", "4", "5"] {
+        for ff in [0u8, 1] {
+          writeln!(out, "C16 cred {} {} {}", doc, tok("1.0.1", hn, 11, cl, 1, "b7", v, true), opt(n, "~", 500, 200, "strict", ff)).unwrap();
+        }
+      }
+    }
+  }
   // issuers that conceal only some properties, or nothing at all, with every disclosure variant; and disclosures that
   // are no base64url and hold multi-byte characters at every offset
   let tokm = |sig: u32, v: &str, mask: u32, sub: bool| -> String {
